@@ -4,11 +4,13 @@ CONSTANTS
   Dev_NoCreate = FALSE
   Dev_CheckThenSend = FALSE
   Dev_RelUnconditional = FALSE
+  Dev_PendingTickNotLogged = FALSE
 SPECIFICATION FairSpec
 INVARIANT TypeOK
 INVARIANT Inv_OneLoop
 INVARIANT Inv_OneResumer
 INVARIANT Inv_ReleasedHasNoLoop
+INVARIANT Inv_ResumeSucceeds
 INVARIANT Inv_NoEventLost
 INVARIANT Inv_ReleasedOnlyIdle
 PROPERTY Live_Delivered
